@@ -95,6 +95,8 @@ def execute(spec, which):
     t = Target([Coord("box", -5.0, 5.0, float(g.uniform(-1, 1)), float(g.uniform(0.5, 1.0))) for _ in range(d)])
     xtrain = np.clip(np.column_stack([g.normal(c.mu, 1.3 * c.s, 160) for c in t.coords]), -4.9, 4.9)
     sseed = int(g.integers(1, 10**6))
+    if spec["seed"][-1] % 3 == 0:
+        sseed = 0  # the seed 0 is a seed like any other
 
     def real_flow_aspire(backend, xpn):
         from aspire import Aspire
